@@ -18,9 +18,9 @@
 /* Return the next linear probe index */
 #define MAP_PROBE_NEXT(map, index)  MAP_SIZE_MOD(map, (index) + 1)
 
-/* Check if index b is less than or equal to index a */
-#define MAP_INDEX_LE(map, a, b)     \
-    ((a) == (b) || (((b) - (a)) & ((map)->table_size >> 1)) != 0)
+/* Check if hole lies (cyclically) between the home slot of an entry and its current index */
+#define MAP_HOLE_IN_CHAIN(map, hole, home, index)     \
+    (MAP_SIZE_MOD(map, (index) - (home)) >= MAP_SIZE_MOD(map, (index) - (hole)))
 
 #define MAP_FOREACH(table, size, fn)  \
     for (map_elem *entry = table; entry < &table[size]; ++entry) { fn }
@@ -225,17 +225,17 @@ static void clear_elem(m_map_t *m, map_elem *removed_entry) {
     m->length--;
     
     size_t removed_index = (removed_entry - m->table);
-    const size_t probe_len = MAP_PROBE_LEN(m);    
     size_t index = MAP_PROBE_NEXT(m, removed_index);
-    for (size_t i = 0; i < probe_len; i++) {
+    /* Walk the whole chain that follows the removed slot: it ends at first empty slot */
+    for (size_t i = 1; i < m->table_size; i++) {
         map_elem *entry = &m->table[index];
         if (!entry->key) {
             /* Reached end of chain */
             break;
         }
         const size_t entry_index = hashmap_calc_index(m, entry->key);
-        /* Shift in entries with an index <= to the removed slot */
-        if (MAP_INDEX_LE(m, removed_index, entry_index)) {
+        /* Shift in entries that would be cut off from their home slot by the hole */
+        if (MAP_HOLE_IN_CHAIN(m, removed_index, entry_index, index)) {
             memcpy(removed_entry, entry, sizeof(map_elem));
             removed_index = index;
             removed_entry = entry;
